@@ -190,6 +190,7 @@ package jobcontroller
 //@   ensures [C12] requests-only-grow: forall n string :: old(jobtasks.delReq[n]) ==> jobtasks.delReq[n]
 //@   ensures [C12] returns-the-job-with-its-identity-and-spec: result0 != nil && result0.Spec == rj.Spec && result0.Name == rj.Name && result0.Namespace == rj.Namespace && result0.UID == rj.UID
 //@        && execution.sameStrs(result0.Finalizers, rj.Finalizers) && result0.DeletionTimestamp == rj.DeletionTimestamp
+//@   ensures [C09] a-task-whose-object-exists-is-not-recorded-as-lost: result0 != rj ==> (forall j int :: 0 <= j && j < len(tasks) ==> job.notLost(result0.Status.Tasks, tasks[j]))
 //@   ensures [C12] cached-job-untouched: *rj == old(*rj)
 //@   ensures clock >= old(clock)
 
